@@ -421,6 +421,8 @@ def _literal_list(tree: ast.Module, owner: str | None, name: str):
                 if isinstance(st, ast.Return):
                     try:
                         return ast.literal_eval(st.value)
+                    except (NameError, UnboundLocalError):
+                        raise
                     except Exception:
                         raise AnalysisError(f"{name}(): not a literal")
         if isinstance(n, ast.ClassDef) and n.name == owner:
@@ -428,6 +430,8 @@ def _literal_list(tree: ast.Module, owner: str | None, name: str):
                 if isinstance(st, ast.Assign) and isinstance(st.targets[0], ast.Name) and st.targets[0].id == name:
                     try:
                         return ast.literal_eval(st.value)
+                    except (NameError, UnboundLocalError):
+                        raise
                     except Exception:
                         raise AnalysisError(f"{owner}.{name}: not a literal")
     raise AnalysisError(f"generated table {name} not found")
@@ -445,6 +449,8 @@ class Generated:
             self.patn = ATNDeserializer().deserialize(_literal_list(self.ptree, None, "serializedATN"))
             self.latn = ATNDeserializer().deserialize(_literal_list(self.ltree, None, "serializedATN"))
         except AnalysisError:
+            raise
+        except (NameError, UnboundLocalError):
             raise
         except Exception as e:
             raise AnalysisError(f"serialized ATN does not deserialize: {type(e).__name__}: {e}")
